@@ -80,7 +80,7 @@ plan('C15',
 
 
 T('C15', 'independent re-implementations (RFC 4648, hex, RFC 3986, FIPS 180-4) in lock-step + python3 stdlib offline + ASan on exact-size blocks, '
-         'with exhaustive enumeration of short decoder inputs',
+         'with exhaustive enumeration of short decoder inputs, plus concurrent hashing/encoding of private buffers under TSan',
   'Runs the real codecs on byte arrays of every length 0..1024 (several contents each, Base64 text also interleaved with whitespace) and sampled lengths to 4 MiB, '
   'SHA-1 on every length 0..260 (0..1100 thorough) and sampled to 8 MiB, every string of length <= 8 over {A b + / = SP LF *} through decodeBase64 (<= 6/7 quick), '
   'every string of length <= 5 over {0 9 a F g} through decodeHex, all 1- and 2-byte strings over 1..255 and random longer ones through Url::encode/decode in both '
